@@ -35,6 +35,13 @@ def parse(payload):
     return RTCMMessage(payload=payload)
 
 
+def rep_of(payload):
+    """Second representation under which the same short payload is offered (decided by the bytes: replayable)."""
+    import zlib
+
+    return ("bytes", "bytes", "bytes", "bytearray", "sub", "mview", "mslice", "mprefix")[zlib.crc32(payload) % 8]
+
+
 def must_reject_framed(ctx, identity, payload, why, params, full_len):
     """The same rule through the static frame parser: correct framing of the short payload, and framing whose
     length field still announces the ORIGINAL size (trailer valid for the bytes present)."""
@@ -73,7 +80,17 @@ def must_reject(ctx, identity, payload, why, params):
             # internal monitor only: the message was rejected, so nothing is observable at the
             # boundary; counted as evidence, never a verdict
             ctx.hit("internal:field-past-end-then-rejected")
-        return True
+        rep = rep_of(payload)
+        if rep == "bytes":
+            return True
+        # the same short payload as a bytearray / memoryview (also as a view INTO a longer buffer: what lies beyond
+        # the view is not payload)
+        ctx.hit("rep:" + rep)
+        try:
+            msg = parse(streams.as_rep(rep, payload))
+        except Exception:
+            return True
+        why = why + f" (payload handed over as {rep})"
     attrs = [k for k in msg.__dict__ if not k.startswith("_")]
     ctx.violation("short-payload-accepted",
                   f"{identity}: payload of {len(payload)} bytes accepted although {why}; returned {len(attrs)} "
